@@ -155,8 +155,8 @@ private:
 class Counting final : public logs_sdk::LogRecordProcessor
 {
 public:
-  Counting(std::unique_ptr<logs_sdk::LogRecordProcessor> inner, std::shared_ptr<Log> log)
-      : inner_(std::move(inner)), log_(std::move(log))
+  Counting(std::unique_ptr<logs_sdk::LogRecordProcessor> inner, std::shared_ptr<Log> log, bool batch)
+      : inner_(std::move(inner)), log_(std::move(log)), batch_(batch)
   {}
   std::unique_ptr<logs_sdk::Recordable> MakeRecordable() noexcept override { return inner_->MakeRecordable(); }
   void OnEmit(std::unique_ptr<logs_sdk::Recordable> &&record) noexcept override
@@ -164,12 +164,21 @@ public:
     log_->on_emit++;
     inner_->OnEmit(std::move(record));
   }
-  bool ForceFlush(std::chrono::microseconds t) noexcept override { return inner_->ForceFlush(t); }
+  bool ForceFlush(std::chrono::microseconds t) noexcept override
+  {
+    // BatchLogRecordProcessor::ForceFlush on an EMPTY queue only returns after `schedule_delay` (its wake-up does not set
+    // is_force_wakeup_background_worker, so the worker goes back to sleep): forward only when something was handed over.
+    if (batch_ && log_->on_emit == flushed_) return true;
+    flushed_ = log_->on_emit;
+    return inner_->ForceFlush(t);
+  }
   bool Shutdown(std::chrono::microseconds t) noexcept override { return inner_->Shutdown(t); }
 
 private:
   std::unique_ptr<logs_sdk::LogRecordProcessor> inner_;
   std::shared_ptr<Log> log_;
+  bool batch_;
+  int flushed_ = 0;
 };
 
 // ---------------------------------------------------------------- persistent worker threads (thread-local context stacks)
@@ -562,7 +571,7 @@ static std::string handle(const std::vector<std::string> &toks)
       o.schedule_delay_millis = std::chrono::milliseconds(2000);
       inner.reset(new logs_sdk::BatchLogRecordProcessor(std::move(exp), o));
     }
-    processors.emplace_back(new Counting(std::move(inner), log));
+    processors.emplace_back(new Counting(std::move(inner), log, k == 'b'));
     logs.push_back(log);
   }
   std::shared_ptr<logs_sdk::LoggerProvider> provider;
@@ -586,19 +595,10 @@ static std::string handle(const std::vector<std::string> &toks)
   std::map<long, std::unique_ptr<Cell>> cells;
   std::map<long, Rec> records;
   const bool has_batch = procs.find('b') != std::string::npos;
-  int handed_over      = 0;  // sum of OnEmit calls seen at the last flush
-  auto total_emits     = [&]() {
-    int n = 0;
-    for (auto &l : logs) n += l->on_emit;
-    return n;
-  };
   auto flush = [&]() {
-    // BatchLogRecordProcessor::ForceFlush on an EMPTY queue only returns after `schedule_delay` (its wake-up does not set
-    // is_force_wakeup_background_worker, so the worker goes back to sleep): flush only when something was handed over.
-    if (!has_batch || total_emits() == handed_over) return;
-    handed_over = total_emits();
+    if (!has_batch) return;
     vh::wait_parked();  // so that the wake-up is not lost
-    provider->ForceFlush();
+    provider->ForceFlush();  // (the Counting wrappers do not forward a flush to a batch processor with nothing queued)
   };
   for (auto &op : ops)
   {
